@@ -16,6 +16,7 @@ LEVEL_TEXT = ("Deductive: Resources.__post_init__ ('raises iff' the statement's 
               "gpus, memory size and wall-time duration) are discharged from the real source for all inputs. Bounded: "
               "string parsers, with_defaults, update, dict/from_dict, to_slurm_options and operand frames against "
               "the statement over enumerated Resources values. 'other': proved core + bounded rest.")
+LEVEL_TEXT += (' Also proved: _delayed_resources_with_defaults (resources given as a callable: the Resources it returns for the keyword arguments, combined with the defaults exactly as in the eager path - with_defaults and the callable are assumed pure functions here).')
 LEVEL_NOTE = ("Assumed (checked bounded, not proved): _convert_to_gb = memsize, _wall_time_to_seconds = duration, "
               "_is_valid_memory/_is_valid_wall_time decide validity (regular expressions are outside the proof rung); the "
               "dataclass-generated constructor stores the fields and runs __post_init__; floats as reals. Reading fixed "
@@ -116,6 +117,9 @@ def proof_items():
                   why_bounded="regular expression + float()"),
         ProofItem(cr.wall_time_to_seconds, gen=_str_gen("time", TIMES, ()), bounded_only=True,
                   why_bounded="str.split / int()"),
+        # resources given as a callable: combined with the defaults exactly as in the eager path
+        ProofItem(cr.delayed_with_defaults, gen=cr.delayed_gen, call=cr.delayed_call,
+                  registry=lambda: {**{c.short: c for c in cr.DELAYED}, **{c.name: c for c in cr.DELAYED}}),
     ]
 
 
